@@ -3,6 +3,7 @@ import DadiVerif.Lemmas.FromPhiAdmix
 import DadiVerif.Lemmas.FromPhiInb
 import DadiVerif.Lemmas.FromPhiConv
 import DadiVerif.Lemmas.FromPhiIntegral
+import DadiVerif.Lemmas.FromPhiMarg
 /-!
 # C05 — sampling a spectrum from φ is exact binomial integration on every code path
 
@@ -498,6 +499,114 @@ theorem C05_inbreeding_mass (het : String) (ns : List ℕ) (grids : List (Array 
     rw [← hm] at this
     exact this
 
+/-! ## marginalising several populations, listed in any order (`Spectrum.marginalize`) -/
+
+/-- the order in which `marginalize(over)` sums the axes out — **read off the source** (`Gen.FromPhi.margSumOrder`) — is a
+    permutation of `over` in descending order, and the labels are deleted in the same order.  (Descending matters: every sum
+    renumbers the axes behind it.) -/
+theorem C05_marginalize_order (over : List ℕ) :
+    (margSumOrder over).Perm over ∧ Desc (margSumOrder over) ∧ margIdsOrder over = margSumOrder over := by
+  refine ⟨?_, ?_, rfl⟩
+  · exact (List.reverse_perm _).trans (sortNat_perm over)
+  · exact sortNat_reverse_desc over
+
+/-- for every listing of distinct populations of a d-population spectrum the loop is a valid sequence of axis numbers -/
+theorem C05_marginalize_valid (over : List ℕ) (d : ℕ) (hnd : over.Nodup) (hov : ∀ a ∈ over, a < d) :
+    ValidSeq (margSumOrder over) d := by
+  obtain ⟨hp, hdesc, _⟩ := C05_marginalize_order over
+  exact validSeq_of_desc _ d (desc_nodup_strict hdesc (hp.nodup_iff.mpr hnd)) (fun a ha => hov a (hp.mem_iff.mp ha))
+
+example : ValidSeq (margSumOrder [1, 3, 0]) 4 := C05_marginalize_valid [1, 3, 0] 4 (by decide) (by decide)
+
+/-- **the result does not depend on the order in which the populations are listed** -/
+theorem C05_marginalize_perm (over over' : List ℕ) (h : over.Perm over') (T : ND) :
+    marginalize over T = marginalize over' T := by
+  obtain ⟨hp, hdesc, hids⟩ := C05_marginalize_order over
+  obtain ⟨hp', hdesc', hids'⟩ := C05_marginalize_order over'
+  have e : margSumOrder over = margSumOrder over' := desc_eq_of_perm ((hp.trans h).trans hp'.symm) hdesc hdesc'
+  unfold marginalize
+  rw [hids, hids', e]
+
+example : ([2, 0] : List ℕ).Perm [0, 2] := by decide
+
+/-- node weights of the trapezoid rule on every axis -/
+def gridWeights (grids : List (Array ℚ)) : List (ℕ → ℚ) :=
+  (List.range grids.length).map fun a => tw (grids.getD a #[]).size (gridFn (grids.getD a #[]))
+
+/-- **marginalising after sampling = sampling the marginalised density, for any set of populations listed in any order**
+    (semi-analytic path, 2–5 dimensions): `marginalize(over)` of the array of the sampled spectrum succeeds, removes the same
+    positions from the labels and from the axes, and every entry of the result is the spectrum sampled (with the operators
+    of the populations left) from the density trapezoid-integrated over the removed axes. -/
+theorem C05_marginalize (ns : List ℕ) (grids : List (Array ℚ)) (hd : grids.length ≤ 5) (hg : GridsOk grids)
+    (over : List ℕ) (hnd : over.Nodup) (hov : ∀ a ∈ over, a < grids.length) (φ : List ℕ → ℚ) (T : ND)
+    (hTs : T.shape = (linalgOps ns grids).map (·.nOut))
+    (hT : ∀ idx, InBox T.shape idx → T.get idx = sampleND (linalgOps ns grids) φ idx) :
+    ∃ R, marginalize over T = .ok (eraseAll (margSumOrder over) (List.range grids.length), R)
+      ∧ R.shape = eraseAll (margSumOrder over) T.shape
+      ∧ ∀ jdx, InBox R.shape jdx →
+          R.get jdx = sampleND (eraseAll (margSumOrder over) (linalgOps ns grids))
+            (margPhi (margSumOrder over) (((linalgOps ns grids).map (·.nIn)).zip (gridWeights grids)) φ) jdx := by
+  have hl : (linalgOps ns grids).length = grids.length := by simp [linalgOps]
+  have hm : ∀ p ∈ (linalgOps ns grids).zip (gridWeights grids), p.1.Mass p.2 := by
+    intro p hp
+    simp only [linalgOps, gridWeights, List.zip_map', List.mem_map, List.mem_range] at hp
+    obtain ⟨a, ha, rfl⟩ := hp
+    exact analyticOp_mass a _ _ (by omega) _ (hg a ha).1 (hg a ha).2
+  have h := marginalize_sampled (linalgOps ns grids) (gridWeights grids) (linalgOps_linear ns grids hd)
+    (by simp [linalgOps, gridWeights]) hm over (by rw [hl]; exact C05_marginalize_valid over _ hnd hov)
+    (C05_marginalize_order over).2.2 φ T hTs hT
+  rw [hl] at h
+  exact h
+
+/-- the hypotheses of `C05_marginalize` are satisfiable: two populations on a three-point grid, the second one listed -/
+example : GridsOk [#[0, 1/2, 1], #[0, 1/2, 1]] ∧ ([1] : List ℕ).Nodup ∧ ∀ a ∈ ([1] : List ℕ), a < 2 := by
+  refine ⟨?_, by decide, by decide⟩
+  intro a ha
+  have : a = 0 ∨ a = 1 := by simp at ha; omega
+  have e : ∀ b : ℕ, b = 0 ∨ b = 1 → [#[(0 : ℚ), 1/2, 1], #[0, 1/2, 1]].getD b #[] = #[0, 1/2, 1] := by
+    intro b hb; rcases hb with rfl | rfl <;> rfl
+  rw [e a this]
+  constructor
+  · intro k
+    rcases k with _ | _ | _ | k <;> simp [gridFn, clamp, ratMin, ratMax]
+    norm_num
+  · intro k hk
+    have hk' : k = 0 ∨ k = 1 := by
+      have : k + 1 < 3 := hk
+      omega
+    rcases hk' with rfl | rfl <;> simp [gridFn]
+
+/-- the same on the direct (trapezoid) path, with or without ascertainment: the removed axes are integrated with the
+    trapezoid weights times the ascertainment multiplier x(1−x) of the ascertained population -/
+theorem C05_marginalize_direct (het : String) (ns : List ℕ) (grids : List (Array ℚ)) (hd1 : 1 ≤ grids.length) (hd : grids.length ≤ 4)
+    (over : List ℕ) (hnd : over.Nodup) (hov : ∀ a ∈ over, a < grids.length) (φ : List ℕ → ℚ) (T : ND)
+    (hTs : T.shape = (directOps het ns grids).map (·.nOut))
+    (hT : ∀ idx, InBox T.shape idx → T.get idx = sampleND (directOps het ns grids) φ idx) :
+    ∃ R, marginalize over T = .ok (eraseAll (margSumOrder over) (List.range grids.length), R)
+      ∧ R.shape = eraseAll (margSumOrder over) T.shape
+      ∧ ∀ jdx, InBox R.shape jdx →
+          R.get jdx = sampleND (eraseAll (margSumOrder over) (directOps het ns grids))
+            (margPhi (margSumOrder over) (((directOps het ns grids).map (·.nIn)).zip
+              ((List.range grids.length).map fun a => fun k => tw (grids.getD a #[]).size (gridFn (grids.getD a #[])) k
+                * hetMult (het == hetKey grids.length a) (gridFn (grids.getD a #[]) k))) φ) jdx := by
+  have hl : (directOps het ns grids).length = grids.length := by simp [directOps]
+  have hlin : ∀ o ∈ directOps het ns grids, o.Linear := by
+    intro o ho
+    simp only [directOps, List.mem_map, List.mem_range] at ho
+    obtain ⟨a, _, rfl⟩ := ho
+    exact directOp_linear _ _ _ _ _ _
+  have hm : ∀ p ∈ (directOps het ns grids).zip ((List.range grids.length).map fun a => fun k =>
+      tw (grids.getD a #[]).size (gridFn (grids.getD a #[])) k * hetMult (het == hetKey grids.length a) (gridFn (grids.getD a #[]) k)),
+      p.1.Mass p.2 := by
+    intro p hp
+    simp only [directOps, List.zip_map', List.mem_map, List.mem_range] at hp
+    obtain ⟨a, ha, rfl⟩ := hp
+    exact directOp_mass _ a _ _ ⟨hd1, hd, ha⟩ _ _
+  have h := marginalize_sampled (directOps het ns grids) _ hlin (by simp [directOps]) hm over
+    (by rw [hl]; exact C05_marginalize_valid over _ hnd hov) (C05_marginalize_order over).2.2 φ T hTs hT
+  rw [hl] at h
+  exact h
+
 /-! ## wiring read off the source -/
 
 /-- the statement shapes the model relies on (loops, dot products, recursion into the lower dimension, `trapz` calls,
@@ -509,8 +618,8 @@ theorem C05_wiring :
     ∧ inbDivisibilityGuardOk = true ∧ inbShapeOk = true ∧ betaBinomlnShapeOk = true ∧ lncombShapeOk = true
     ∧ partShapeOk = true ∧ partPrecalcShapeOk = true ∧ convolutionShapeOk = true
     ∧ dispatchWiringOk = true ∧ fromPhiGuardsOk = true ∧ fromPhiAttrsOk = true ∧ dispatchInbWiringOk = true
-    ∧ inbAllZeroDelegates = true ∧ inbForceDirectDefault = true := by
-  refine ⟨rfl, rfl, rfl, rfl, ?_, ?_, ?_, rfl, rfl, rfl, rfl, rfl, rfl, rfl, rfl, rfl, rfl, rfl, rfl, rfl, rfl⟩
+    ∧ inbAllZeroDelegates = true ∧ inbForceDirectDefault = true ∧ margShapeOk = true := by
+  refine ⟨rfl, rfl, rfl, rfl, ?_, ?_, ?_, rfl, rfl, rfl, rfl, rfl, rfl, rfl, rfl, rfl, rfl, rfl, rfl, rfl, rfl, rfl⟩
   · intro a ha
     have : a = 0 ∨ a = 1 ∨ a = 2 ∨ a = 3 ∨ a = 4 := by omega
     rcases this with rfl | rfl | rfl | rfl | rfl <;> rfl
